@@ -514,13 +514,17 @@ let spec_check (know : int list) (s : sx) =
         if not okv && (try Sys.getenv "VERIF_SHOW_M2" = "1" with Not_found -> false) then
           Printf.printf "NKBAD case=%s cmd=%s\n" (fst !cur) (snd !cur)
       end;
-      (* EXPERIMENT (statement validation, depth 2): Map<K1, Map<K2, Orswot>> under causal op-based delivery *)
+      (* value level at depth 2, Map<K1, Map<K2, Orswot>>, causal op-based delivery: theorems
+         C05_map2_values_refine / C05_map2_valspec_ok / C01_map2_converge (proofs/MapMapOrswot.v);
+         theorem-backed, never attributed to a known finding *)
       if !ty = "mapmo" && not !merges_seen && !all_causal then begin
         let i = map_inst or_inst in
         let okv = m2valspec_ok (history_of (mop_sx i)) k (cmap_sx i s) in
         stat ("mapval2_" ^ (if okv then "ok" else "bad"));
-        if not okv && (try Sys.getenv "VERIF_SHOW_M2" = "1" with Not_found -> false) then
-          Printf.printf "M2BAD case=%s cmd=%s\n" (fst !cur) (snd !cur)
+        let saved = !classes in
+        classes := [];
+        expect_all ["C01"; "C05"] (fun () -> "Map<K1,Map<K2,Orswot>>: the inner key table under some outer key, or the member table under some (outer, inner) key, differs from the depth-2 value-level specification of the replica's knowledge (an inner key / a member is present iff one of its applied witnesses is covered by no applied outer key remove, inner key remove or nested member remove naming it)") okv;
+        classes := saved
       end;
       (* value level, Map<K, Orswot>, per-actor (overtaking) op-based delivery, no update carrying a nested remove:
          theorems C08_mapor_values_per_actor / C05_mapor_values_refine_per_actor (proofs/MapOrswotPA.v);
